@@ -2,7 +2,6 @@
 package c01
 
 import (
-	"os"
 	"context"
 	"encoding/json"
 	"fmt"
@@ -25,12 +24,8 @@ func init() { fw.Register(c01{}) }
 
 func (c01) ID() string { return "C01" }
 // richCases: cases with the "rich" operation profile (several fragments per selection set, fragment
-// bodies that re-select fields of the enclosing level). DEVELOPMENT SWITCH: they are only part of
-// the tiers when VERIF_C01_RICH is set, until the planner failures they expose are triaged.
+// bodies that re-select fields of the enclosing level); they follow the base cases in the index space.
 func richCases(tier string) int {
-	if os.Getenv("VERIF_C01_RICH") == "" {
-		return 0
-	}
 	if tier == fw.Thorough {
 		return 12000
 	}
@@ -114,6 +109,12 @@ func (p c01) Run(c *fw.Ctx, idx int) fw.Result {
 		}
 		doc, vals := gen.GenOperation(r, l.Super, op)
 		text := doc.String()
+		if len(text) > 20000 {
+			// Echo + MultiFrag + Duplicates occasionally explode (operations of several 100 KB); all PRNG
+			// draws of this operation have happened, so skipping keeps the case deterministic
+			res.Count("oversized_operations_skipped", 1)
+			continue
+		}
 		vars := varsJSON(vals)
 		detail := func(extra map[string]any) map[string]any {
 			d := layoutDetail()
